@@ -1,7 +1,7 @@
 (* C19 — nsq_to_file never acknowledges what it has not safely written.
    Property theorems only (proofs in proofs/FileLoggerProofs.v). *)
 From Coq Require Import List ZArith NArith Bool.
-From NSQV Require Import model.Judge model.FileOS model.FileLogger proofs.FileOSProofs proofs.FileLoggerProofs proofs.FileLoggerUnique.
+From NSQV Require Import model.Judge model.FileOS model.FileLogger proofs.FileOSProofs proofs.FileLoggerProofs proofs.FileLoggerUnique proofs.FileMonitorProofs.
 Import ListNotations.
 Open Scope N_scope.
 
@@ -67,6 +67,13 @@ Theorem C19_tags_unique : forall c fs0 es,
   NoDup (keys (fs (run c fs0 es))) /\ NoDup (alltags (run c fs0 es)).
 Proof. exact tags_unique. Qed.
 Print Assumptions C19_tags_unique.
+
+(* the decidable monitor that judges the implementation's observed traces (J19) accepts
+   every trace of the model *)
+Theorem C19_monitor_accepts_model : forall c fs0 es, NoDup (keys fs0) ->
+  monitor_trace fs0 (trace (run c fs0 es)) = true.
+Proof. exact monitor_accepts_model. Qed.
+Print Assumptions C19_monitor_accepts_model.
 
 (* ---------- non-vacuity ---------- *)
 Definition ex_fmt : bytes := [116;60;82;69;86;62;46;108;111;103;46;103;122].   (* "t<REV>.log.gz" *)
